@@ -157,6 +157,16 @@ def entries(db, qt, cat, base, other, cur=None):
         ("GetUnitName / caption", lambda u: [Scalar(cat, x, u).GetUnitName(), ObtainQuantity(u, cat).GetUnitCaption(), Scalar(cat, x, u).GetValidUnits()]),
         ("IsValid", lambda u: Scalar(cat, x, u).IsValid()),
     ]
+    # requests that must be refused - the unit, under either spelling, belongs to another quantity type than the object asked
+    fqt, fu = ("time", "s") if qt == "length" else ("length", "m")
+    if fqt in db.quantity_types and fqt in db.categories_to_quantity_types:
+        E += [
+            ("foreign Scalar.GetValue(u)", lambda u: Scalar(fqt, x, fu).GetValue(u)), ("foreign Array.GetValues(u)", lambda u: Array(fqt, [x, 1.0], fu).GetValues(u)),
+            ("foreign Array[nd].GetValues(u)", lambda u: Array(fqt, np.array([x, 1.0]), fu).GetValues(u)), ("foreign FractionScalar.GetValue(u)", lambda u: FractionScalar(fqt, FractionValue(3, (1, 4)), fu).GetValue(u)),
+            ("foreign db.Convert(qt,fu,u,x)", lambda u: db.Convert(fqt, fu, u, x)), ("foreign db.Convert(qt,u,fu,list)", lambda u: db.Convert(fqt, u, fu, [x])), ("foreign Scalar(c,x,u)", lambda u: Scalar(fqt, x, u)),
+            ("foreign Scalar.CreateCopy(unit=u)", lambda u: Scalar(fqt, x, fu).CreateCopy(unit=u)), ("foreign db.GetInfo(qt,u)", lambda u: db.GetInfo(fqt, u).unit), ("foreign Quantity.ConvertScalarValue", lambda u: ObtainQuantity(fu, fqt).ConvertScalarValue(x, u)),
+            ("foreign db.CheckQuantityTypeUnit", lambda u: db.CheckQuantityTypeUnit(fqt, u)),
+        ]  # fmt: skip
     if cur is not None:
         # objects that already *are* in the unit being asked for (the current spelling of it), plain and with a caption on the quantity
         def own(caption):
@@ -190,6 +200,10 @@ def registration(ctx, qt, legacy, current, units_of_type):
         ("AddCategory(valid_units=[other,u])", lambda u: {"valid_units": [x for x in units_of_type if x not in (current, base)][:1] + [u]}),
         ("AddCategory(default_unit=u)", lambda u: {"default_unit": u}),
         ("AddCategory(default_unit=u,min,max)", lambda u: {"default_unit": u, "min_value": 0.0, "max_value": 10.0}),
+        # a copy of the category named after the type, with units of its own on top
+        ("AddCategory(from_category, valid_units=[u])", lambda u: {"from_category": qt, "valid_units": [u], "_no_qt": True}),
+        ("AddCategory(from_category, valid_units=[u,base], default_unit=u)", lambda u: {"from_category": qt, "valid_units": [u, base] if current != base else [u], "default_unit": u, "_no_qt": True}),
+        ("AddCategory(from_category, valid_units=[base,u])", lambda u: {"from_category": qt, "valid_units": ([base] if current != base else []) + [u], "_no_qt": True}),
     ]
     for name, mk in forms:
         res = []
@@ -201,7 +215,7 @@ def registration(ctx, qt, legacy, current, units_of_type):
                 def f():
                     kw = mk(spelling)
                     given = list(kw.get("valid_units") or [])
-                    ci = db.AddCategory("c16 category", qt, **kw)
+                    ci = db.AddCategory("c16 category", **kw) if kw.pop("_no_qt", False) else db.AddCategory("c16 category", qt, **kw)
                     s = Scalar("c16 category")
                     return [ci.quantity_type, list(ci.valid_units) if ci.valid_units is not None else None, sorted(ci.valid_units_set), ci.default_unit, ci.default_value, ci.min_value, ci.max_value,
                             db.GetDefaultUnit("c16 category"), list(db.GetValidUnits("c16 category")), s, s.GetValidUnits(), Scalar("c16 category", 1.0, spelling), Scalar("c16 category", unit=spelling)]  # fmt: skip
